@@ -64,10 +64,54 @@ def make_grid(spec):
         return PolarSymGrid(spec["radius"], spec["shape"])
     if k == "cylindrical":
         return CylindricalSymGrid(spec["radius"], spec["bounds_z"], spec["shape"])
+    if k == "spherical":
+        from pde import SphericalSymGrid
+        return SphericalSymGrid(spec["radius"], spec["shape"])
     raise ValueError(k)
 
 
+def realise(v):
+    """JSON-friendly option values -> the Python objects handed to the implementation
+    ({"__np__": "float64", "v": 0.5} -> numpy scalar, {"__float__": "-inf"} -> float)."""
+    if isinstance(v, dict):
+        if "__np__" in v:
+            return getattr(np, v["__np__"])(v["v"])
+        if "__float__" in v:
+            return float(v["__float__"])
+        return {k: realise(x) for k, x in v.items()}
+    if isinstance(v, list):
+        return [realise(x) for x in v]
+    return v
+
+
+def cast_times(times, kind):
+    """Time codes as the type of the case: as written (python int / float), or numpy scalars."""
+    if kind in (None, "py"):
+        return list(times)
+    if kind == "float":
+        return [float(t) for t in times]
+    return [getattr(np, kind)(t) for t in times]
+
+
+def with_dtype(field, dtype):
+    """The frame with a non-default data type (all frames of a history share it)."""
+    from pde import ScalarField
+    if dtype in (None, "float64"):
+        return field
+    if dtype == "float32":
+        return ScalarField(field.grid, field.data.astype(np.float32), dtype=np.float32)
+    if dtype == "int":  # grey levels 0..4
+        return ScalarField(field.grid, np.rint(np.clip(field.data, 0, 1) * 4).astype(int), dtype=int)
+    if dtype == "bool":
+        return ScalarField(field.grid, field.data > 0.5, dtype=bool)
+    raise ValueError(dtype)
+
+
 def make_frame(grid, fs):
+    return with_dtype(_make_frame(grid, fs), fs.get("dtype"))
+
+
+def _make_frame(grid, fs):
     from pde import ScalarField
     from droplets import DiffuseDroplet, Emulsion
     k = fs["kind"]
@@ -151,7 +195,13 @@ def gen_frame(rng: random.Random, gspec, allow_noise=True):
 
 
 def gen_times(rng: random.Random, n):
-    mode = rng.randrange(4)
+    mode = rng.randrange(6)
+    if mode == 4 and n:  # time code 0 (int or float) first / interior / last, other codes negative and non-integer
+        out = [round(rng.uniform(-3, 3), 2) or 0.5 for _ in range(n)]
+        out[rng.choice([0, n // 2, n - 1])] = rng.choice([0, 0.0])
+        return out
+    if mode == 5:  # negative, decreasing, non-integer
+        return [-0.75 - 1.5 * i for i in range(n)]
     if mode == 0:
         return [float(i) for i in range(n)]
     if mode == 1:
@@ -169,17 +219,20 @@ def gen_times(rng: random.Random, n):
 def gen_options(rng: random.Random, dim: int):
     o = {}
     if rng.random() < 0.75:
-        o["threshold"] = rng.choice([0.3, 0.5, 0.7, 0.45, "auto", "extrema", "mean", "otsu"])
+        o["threshold"] = rng.choice([0.3, 0.5, 0.7, 0.45, "auto", "extrema", "mean", "otsu", 0, 1, 0.0, 1.0,
+                                     {"__np__": "float64", "v": 0.5}, {"__np__": "float32", "v": 0.25}])
     if rng.random() < 0.7:
-        o["minimal_radius"] = rng.choice([0, 0.75, 1.0, 1.5, 2.5, 4.0])
+        o["minimal_radius"] = rng.choice([0, 0.75, 1.0, 1.5, 2.5, 4.0, -1.0, {"__float__": "-inf"},
+                                          {"__np__": "float64", "v": 1.0}, 1])
     if rng.random() < 0.5:
         o["refine"] = rng.random() < 0.7
     if rng.random() < 0.35:
-        o["refine_args"] = rng.choice([None, {"vmin": None, "vmax": None}, {"tolerance": 1e-3},
-                                       {"vmin": 0.0, "vmax": 1.0, "adjust_values": True}])
+        o["refine_args"] = rng.choice([None, {}, {"vmin": None, "vmax": None}, {"tolerance": 1e-3},
+                                       {"vmin": 0.0, "vmax": 1.0, "adjust_values": True},
+                                       {"tolerance": 1e-3, "least_squares_params": {"max_nfev": 5}}])
     if rng.random() < 0.4:
-        o["perturbation_modes"] = rng.choice([0, 1, 2, 3])
-    if dim == 3 and o.get("refine") and o.get("perturbation_modes", 0) > 0:
+        o["perturbation_modes"] = rng.choice([0, 1, 2, 3, {"__np__": "int64", "v": 2}])
+    if dim == 3 and o.get("refine") and realise(o.get("perturbation_modes", 0)) > 0:
         o["perturbation_modes"] = 0  # spherical harmonics fits in 3d are slow; C04/C05 cover them
     return o
 
@@ -188,12 +241,25 @@ def gen_case(rng: random.Random, max_frames=6):
     gspec = gen_grid(rng)
     dim = len(gspec["shape"])
     opts = gen_options(rng, dim)
-    heavy = bool(opts.get("refine")) and (opts.get("perturbation_modes", 0) > 0 or dim == 3)
+    heavy = bool(opts.get("refine")) and (realise(opts.get("perturbation_modes", 0)) > 0 or dim == 3)
     n = rng.choice([0, 1, 1, 2, 3, 4, 5, max_frames]) if not heavy else rng.choice([0, 1, 2, 3])
     frames = [gen_frame(rng, gspec, allow_noise=not heavy and dim < 3) for _ in range(n)]
     src = rng.choice([{"kind": "none"}, {"kind": "none"}, {"kind": "int", "index": 0}, {"kind": "int", "index": 1},
                       {"kind": "callable"}])
-    return {"grid": gspec, "frames": frames, "times": gen_times(rng, n), "options": opts, "source": src}
+    case = {"grid": gspec, "frames": frames, "times": gen_times(rng, n), "options": opts, "source": src}
+    # data type of the images (one per history), type of the time codes, a time course handed in by the caller
+    dtype = rng.choice([None, None, None, "float32", "int", "bool"])
+    if dtype:
+        for f in frames:
+            f["dtype"] = dtype
+    case["time_type"] = rng.choice(["py", "py", "float", "float64", "float32", "int64" if all(
+        float(t).is_integer() for t in case["times"]) else "float64"])
+    if rng.random() < 0.2:
+        k = rng.choice([0, 1, 2])
+        case["initial"] = {"frames": [gen_frame(rng, gspec, allow_noise=False) for _ in range(k)],
+                           "times": [-10.0 + i for i in range(k)],
+                           "via": "tracker_method" if not opts and src["kind"] == "none" and rng.random() < 0.7 else "ctor"}
+    return case
 
 
 # ---------------------------------------------------------------------------------------
@@ -240,14 +306,28 @@ def run_droplet_case(case, tmpdir=None):
     grid = make_grid(case["grid"])
     states = [make_state(grid, fs, case["source"]) for fs in case["frames"]]
     plain = [make_frame(grid, fs) for fs in case["frames"]]
-    times = case["times"]
-    opts = case["options"]
+    import copy
+    times = cast_times(case["times"], case.get("time_type"))
+    opts = realise(case["options"])
+    opts_before = copy.deepcopy(opts)
     w = quiet().__enter__()
     try:
         filename = None
         if tmpdir is not None:
             filename = os.path.join(tmpdir, "tracker.hdf5")
-        tr = DropletTracker(1, filename=filename, source=source_arg(case["source"]), **opts)
+        # a time course handed in by the caller (filled before with default settings) is continued IN PLACE
+        initial, s0, aliased = None, None, None
+        if case.get("initial") is not None:
+            s0 = EmulsionTimeCourse()
+            for fs, t in zip(case["initial"]["frames"], case["initial"]["times"]):
+                s0.append(locate_droplets(make_frame(grid, {k: v for k, v in fs.items() if k != "dtype"})), t)
+            initial = canon_tc(s0)
+        if s0 is not None and case["initial"]["via"] == "tracker_method":
+            tr = s0.tracker(1, filename=filename)
+        elif s0 is not None:
+            tr = DropletTracker(1, filename=filename, source=source_arg(case["source"]), emulsion_timecourse=s0, **opts)
+        else:
+            tr = DropletTracker(1, filename=filename, source=source_arg(case["source"]), **opts)
         online = None
         try:
             for s, t in zip(states, times):
@@ -255,6 +335,8 @@ def run_droplet_case(case, tmpdir=None):
             online = ("ok", canon_tc(tr.data))
         except Exception as e:  # noqa
             online = ("err", type(e).__name__)
+        if s0 is not None:
+            aliased = tr.data is s0
         # offline: the same stored fields
         from pde.visualization.plotting import extract_field
         if case["source"]["kind"] == "none":
@@ -291,8 +373,34 @@ def run_droplet_case(case, tmpdir=None):
             os.remove(filename)
     finally:
         w.__exit__(None, None, None)
+    prefix_ok = None
+    if initial is not None and online[0] == "ok":
+        k = len(initial["times"])
+        full = online[1]
+        prefix_ok = (full["times"][:k] == initial["times"] and full["emulsions"][:k] == initial["emulsions"]
+                     and bool(aliased))
+        online = ("ok", {"times": full["times"][k:], "emulsions": full["emulsions"][k:]})
+        if roundtrip is not None:  # the file holds the whole time course
+            roundtrip_ok = (roundtrip["emulsions"] == full["emulsions"]
+                            and roundtrip["times"] == [float(t) for t in full["times"]])
+            roundtrip = {"times": [float(t) for t in online[1]["times"]], "emulsions": online[1]["emulsions"]} \
+                if roundtrip_ok else {"times": [], "emulsions": ["file differs"]}
     return {"online": online, "offline": offline, "direct": direct, "same_field": same_field,
-            "roundtrip": roundtrip}
+            "roundtrip": roundtrip, "times_fed": times, "initial": initial, "prefix_ok": prefix_ok,
+            "options_unchanged": _deep_equal(opts_before, opts)}
+
+
+def _deep_equal(a, b):
+    if isinstance(a, dict) and isinstance(b, dict):
+        return list(a) == list(b) and all(_deep_equal(a[k], b[k]) for k in a)
+    if isinstance(a, (list, tuple)) and isinstance(b, (list, tuple)):
+        return len(a) == len(b) and all(_deep_equal(x, y) for x, y in zip(a, b))
+    if callable(a) and callable(b):
+        return a is b
+    try:
+        return type(a) is type(b) and bool(a == b or (a != a and b != b))
+    except Exception:  # noqa
+        return False
 
 
 def judge_droplet_case(case, obs):
@@ -309,10 +417,11 @@ def judge_droplet_case(case, obs):
                 fails.append(f"online raises {on[1]}, offline[{name}] raises {off[1]}")
             continue
         a, b = on[1], off[1]
-        if len(a["times"]) != len(case["times"]):
-            fails.append(f"{len(a['times'])} frames recorded for {len(case['times'])} handled")
-        if a["times"] != b["times"] or [repr(t) for t in a["times"]] != [repr(t) for t in case["times"]]:
-            fails.append(f"times differ: online {a['times']}, offline[{name}] {b['times']}, fed {case['times']}")
+        fed = obs.get("times_fed", case["times"])
+        if len(a["times"]) != len(fed):
+            fails.append(f"{len(a['times'])} frames recorded for {len(fed)} handled")
+        if a["times"] != b["times"] or [repr(t) for t in a["times"]] != [repr(t) for t in fed]:
+            fails.append(f"times differ: online {a['times']!r}, offline[{name}] {b['times']!r}, fed {fed!r}")
         if len(a["emulsions"]) != len(b["emulsions"]):
             fails.append(f"frame counts differ: online {len(a['emulsions'])}, offline[{name}] {len(b['emulsions'])}")
         for i, (ea, eb) in enumerate(zip(a["emulsions"], b["emulsions"])):
@@ -320,6 +429,11 @@ def judge_droplet_case(case, obs):
                 fails.append(f"frame {i}: online {[(c, bytes_to_floats(x)) for c, _, x in ea]} != "
                              f"offline[{name}] {[(c, bytes_to_floats(x)) for c, _, x in eb]}")
                 break
+    if obs.get("prefix_ok") is False:
+        fails.append("a time course handed to the tracker (emulsion_timecourse=...) is not continued in place: its "
+                     "frames are not the prefix of tracker.data, or tracker.data is another object")
+    if obs.get("options_unchanged") is False:
+        fails.append("the option objects handed to DropletTracker (refine_args ...) were modified by the analysis")
     if not obs["same_field"]:
         fails.append("harness: the source selection does not return the generated frame exactly")
     if on[0] == "ok":
@@ -347,10 +461,9 @@ METHODS = ["structure_factor_mean", "structure_factor_maximum", "droplet_detecti
 def gen_length_case(rng: random.Random):
     if rng.random() < 0.25:
         # grids on which the structure factor is not defined -> the analysis raises
-        if rng.random() < 0.5:
-            gspec = {"kind": "polar", "radius": 8.0, "shape": 12}
-        else:
-            gspec = {"kind": "cylindrical", "radius": 6.0, "bounds_z": [0.0, 8.0], "shape": [6, 8]}
+        gspec = rng.choice([{"kind": "polar", "radius": 8.0, "shape": 12},
+                            {"kind": "cylindrical", "radius": 6.0, "bounds_z": [0.0, 8.0], "shape": [6, 8]},
+                            {"kind": "spherical", "radius": 6.0, "shape": 8}])
     else:
         gspec = gen_grid(rng, dims=(1, 2, 2, 2))
         if gspec["kind"] == "unit":
@@ -358,7 +471,7 @@ def gen_length_case(rng: random.Random):
     n = rng.choice([0, 1, 2, 3, 4, 6])
     frames = []
     for _ in range(n):
-        if gspec["kind"] in ("polar", "cylindrical"):
+        if gspec["kind"] in ("polar", "cylindrical", "spherical"):
             frames.append(rng.choice([{"kind": "const", "value": 0.0}, {"kind": "const", "value": 1.0},
                                       {"kind": "noise", "seed": rng.randrange(10 ** 6), "lo": 0.0, "hi": 1.0}]))
         else:
@@ -369,7 +482,13 @@ def gen_length_case(rng: random.Random):
     if rng.random() < 0.3:
         kw["verbose"] = rng.random() < 0.5
     src = rng.choice([{"kind": "none"}, {"kind": "none"}, {"kind": "int", "index": 1}, {"kind": "callable"}])
-    return {"grid": gspec, "frames": frames, "times": gen_times(rng, n), "options": kw, "source": src}
+    dtype = rng.choice([None, None, None, "float32", "int"])
+    if dtype:
+        for f in frames:
+            f["dtype"] = dtype
+    times = gen_times(rng, n)
+    return {"grid": gspec, "frames": frames, "times": times, "options": kw, "source": src,
+            "time_type": rng.choice(["py", "py", "float64", "float32"])}
 
 
 def canon_number(x):
@@ -397,7 +516,8 @@ def run_length_case(case, tmpdir=None):
         filename = os.path.join(tmpdir, "lengths.json") if tmpdir is not None else None
         tr = LengthScaleTracker(1, filename=filename, source=source_arg(case["source"]), **case["options"])
         raised = None
-        for s, t in zip(states, case["times"]):
+        times_fed = cast_times(case["times"], case.get("time_type"))
+        for s, t in zip(states, times_fed):
             try:
                 tr.handle(s, t)
             except Exception as e:  # noqa
@@ -405,21 +525,46 @@ def run_length_case(case, tmpdir=None):
                 break
         method = case["options"].get("method", "structure_factor_mean")
         direct = []
-        for f in plain:
+        # the frame the tracker analyses: the selected component (a FieldCollection holds float64 copies of
+        # float32 / integer images, so it is the extracted field and not the generated image that counts)
+        if case["source"]["kind"] == "none":
+            analysed = plain
+        else:
+            from pde.visualization.plotting import extract_field
+            analysed = [extract_field(s_, source_arg(case["source"]), 0) for s_ in states]
+        for f in analysed:
             try:
                 direct.append(("ok", canon_number(get_length_scale(f, method=method))))
             except Exception as e:  # noqa
                 direct.append(("err", type(e).__name__))
-        dumped = None
+        dumped, finalize_error = None, None
         if filename is not None and raised is None:
-            tr.finalize()
-            with open(filename) as fp:
-                dumped = json.load(fp)
-            os.remove(filename)
+            try:
+                tr.finalize()
+                with open(filename) as fp:
+                    dumped = json.load(fp)
+            except Exception as e:  # noqa
+                finalize_error = type(e).__name__
+            if os.path.exists(filename):
+                os.remove(filename)
     finally:
         w.__exit__(None, None, None)
     return {"raised": raised, "times": list(tr.times), "values": [canon_number(v) for v in tr.length_scales],
-            "direct": direct, "dumped": dumped}
+            "direct": direct, "dumped": dumped, "times_fed": times_fed, "finalize_error": finalize_error}
+
+
+# Inputs that make the UNCHANGED /repo misbehave in a way that is reported to the lead but not (yet) judged
+# (notes/audit_task.md): counted in the evidence, listed in the notes.
+SUSPECTED = [
+    {"id": "S14a", "where": "LengthScaleTracker.finalize",
+     "input": "time codes that are numpy scalars other than float64 (np.float32, np.int64) and a filename",
+     "observed": "json.dump raises TypeError (Object of type float32 / int64 is not JSON serializable); "
+                 "DropletTracker.finalize (HDF5) stores the same time codes"},
+]
+
+
+def suspected_length_finalize(case) -> bool:
+    return case.get("time_type") in ("float32", "int64")
 
 
 def judge_length_case(case, obs):
@@ -431,14 +576,16 @@ def judge_length_case(case, obs):
     if len(obs["times"]) != n or len(obs["values"]) != n:
         fails.append(f"lists not aligned with the history: {len(obs['times'])} times, {len(obs['values'])} values, "
                      f"{n} frames handled")
-    if [repr(t) for t in obs["times"]] != [repr(t) for t in case["times"]][:len(obs["times"])] and \
-            len(obs["times"]) == n:
-        fails.append(f"recorded times {obs['times']} != fed times {case['times']}")
+    fed = obs.get("times_fed", case["times"])
+    if [repr(t) for t in obs["times"]] != [repr(t) for t in fed][:len(obs["times"])] and len(obs["times"]) == n:
+        fails.append(f"recorded times {obs['times']!r} != fed times {fed!r}")
     for i, (v, d) in enumerate(zip(obs["values"], obs["direct"])):
         want = d[1] if d[0] == "ok" else ("nan",)
         if v != want:
             fails.append(f"frame {i}: recorded {v}, analysis gives {d}")
             break
+    if obs.get("finalize_error") and not suspected_length_finalize(case):
+        fails.append(f"finalize raised {obs['finalize_error']}")
     if obs["dumped"] is not None:
         dv = [canon_number(v) for v in obs["dumped"]["length_scales"]]
         if dv != obs["values"] or [float(t) for t in obs["dumped"]["times"]] != [float(t) for t in obs["times"]]:
@@ -457,13 +604,17 @@ def gen_solver_case(rng: random.Random):
     while frame["kind"] == "const":
         frame = gen_frame(rng, gspec)
     opts = gen_options(rng, len(gspec["shape"]))
-    if opts.get("perturbation_modes", 0) > 0 and (opts.get("refine") or len(gspec["shape"]) == 1):
+    if realise(opts.get("perturbation_modes", 0)) > 0 and (opts.get("refine") or len(gspec["shape"]) == 1):
         # 1d + modes > 0 raises in the first handle call, which aborts the solver run before anything is
         # stored (that path is exercised by the directly driven cases)
         opts["perturbation_modes"] = 0
-    interrupts = rng.choice([0.1, 0.25, 0.05, [0.0, 0.02, 0.3, 0.31], "geometric"])
+    interrupts = rng.choice([0.1, 0.25, 0.05, [0.0, 0.02, 0.3, 0.31], "geometric", "constant_late", "logarithmic", 1])
     if interrupts == "geometric":
         interrupts = {"kind": "geometric", "scale": 0.01, "factor": 2.0}
+    elif interrupts == "constant_late":  # recording starts after an equilibration period
+        interrupts = {"kind": "constant", "dt": 0.1, "t_start": 0.15}
+    elif interrupts == "logarithmic":
+        interrupts = {"kind": "logarithmic", "dt_initial": 0.02, "factor": 2.0}
     return {"grid": gspec, "initial": frame, "options": opts, "interrupts": interrupts,
             "t_range": rng.choice([0.35, 0.5, 0.6]), "dt": rng.choice([0.01, 0.005]),
             "diffusivity": rng.choice([1.0, 0.5]), "method": rng.choice(METHODS)}
@@ -471,8 +622,12 @@ def gen_solver_case(rng: random.Random):
 
 def make_interrupts(spec):
     if isinstance(spec, dict):
-        from pde.trackers.interrupts import GeometricInterrupts
-        return GeometricInterrupts(spec["scale"], spec["factor"])
+        from pde.trackers.interrupts import ConstantInterrupts, GeometricInterrupts, LogarithmicInterrupts
+        if spec["kind"] == "geometric":
+            return GeometricInterrupts(spec["scale"], spec["factor"])
+        if spec["kind"] == "constant":
+            return ConstantInterrupts(spec["dt"], t_start=spec["t_start"])
+        return LogarithmicInterrupts(spec["dt_initial"], spec["factor"])
     return spec
 
 
@@ -488,7 +643,7 @@ def run_solver_case(case, tmpdir=None):
     try:
         storage = MemoryStorage()
         filename = os.path.join(tmpdir, "solver.hdf5") if tmpdir is not None else None
-        tr = DropletTracker(make_interrupts(case["interrupts"]), filename=filename, **case["options"])
+        tr = DropletTracker(make_interrupts(case["interrupts"]), filename=filename, **realise(case["options"]))
         lt = LengthScaleTracker(make_interrupts(case["interrupts"]), method=case["method"])
         eq = DiffusionPDE(diffusivity=case["diffusivity"])
         try:
@@ -498,7 +653,7 @@ def run_solver_case(case, tmpdir=None):
         except Exception as e:  # noqa
             online = ("err", type(e).__name__)
         try:
-            off = EmulsionTimeCourse.from_storage(storage, progress=False, **offline_kwargs(case["options"]))
+            off = EmulsionTimeCourse.from_storage(storage, progress=False, **offline_kwargs(realise(case["options"])))
             offline = ("ok", canon_tc(off))
         except Exception as e:  # noqa
             offline = ("err", type(e).__name__)
@@ -605,7 +760,10 @@ class Ids:
 
 
 def qt(t) -> str:
-    return vlib.qlit(Fraction(t))
+    """Exact Q literal of a time code (python / numpy integer or float)."""
+    if isinstance(t, (int, np.integer)) and not isinstance(t, bool):
+        return vlib.qlit(Fraction(int(t)))
+    return vlib.qlit(Fraction(float(t)))
 
 
 def value_key(v):
@@ -615,7 +773,7 @@ def value_key(v):
 def droplet_case_literal(case, obs, vid: Ids, eid: Ids, xid: Ids, locate_sig):
     """(user options, expected effective options (property text), history, per-frame direct results,
     online record, offline record)."""
-    opts = case["options"]
+    opts = realise(case["options"])
     user = [(k, vid(value_key(v))) for k, v in sorted(opts.items())]
     src = source_arg(case["source"])
     user.append(("source", vid(value_key(src))))
@@ -626,7 +784,7 @@ def droplet_case_literal(case, obs, vid: Ids, eid: Ids, xid: Ids, locate_sig):
     for name, default in locate_sig:
         eff.append((name, vid(value_key(kw[name] if name in kw else default))))
     res = lambda r: f"(Ok {eid(r[1])})" if r[0] == "ok" else f"(Err {xid(r[1])})"  # noqa
-    hist = vlib.listlit([f"({i}, {qt(t)})" for i, t in enumerate(case["times"])])
+    hist = vlib.listlit([f"({i}, {qt(t)})" for i, t in enumerate(obs.get("times_fed", case["times"]))])
     table = vlib.listlit([res(r) for r in obs["direct"]])
 
     def tc(o):
@@ -655,7 +813,7 @@ def length_case_literal(case, obs, vid: Ids, xid: Ids):
     user = [(k, vid(value_key(v))) for k, v in sorted(case["options"].items())]
     user.append(("source", vid(value_key(source_arg(case["source"])))))
     method = case["options"].get("method", "structure_factor_mean")
-    hist = vlib.listlit([f"({i}, {qt(t)})" for i, t in enumerate(case["times"])])
+    hist = vlib.listlit([f"({i}, {qt(t)})" for i, t in enumerate(obs.get("times_fed", case["times"]))])
     table = vlib.listlit([f"(Ok {number_literal(r[1])})" if r[0] == "ok" else f"(Err {xid(r[1])})"
                           for r in obs["direct"]])
     rec = (f"({vlib.listlit([qt(t) for t in obs['times']])}, "
@@ -819,6 +977,55 @@ def corpus():
     ]
 
 
+def corpus_systematic():
+    """Every analysis option of DropletTracker non-default one at a time and in combinations (incl. modes > 0 with
+    refine off / on), on a 2-d and on a 1-d grid (modes > 0 in 1-d raises offline: the tracker must too); frames
+    without droplets first / interior / last / everywhere; time code 0 first / interior / last, negative and
+    non-integer codes; a time course handed in by the caller."""
+    g2 = {"kind": "unit", "shape": [12, 12], "periodic": True}
+    g1 = {"kind": "unit", "shape": [16], "periodic": False}
+    e2 = {"kind": "emulsion", "droplets": [[[3.0, 3.0], 2.25, 1.0], [[8.5, 8.0], 2.5, 1.0]]}
+    e1 = {"kind": "emulsion", "droplets": [[[6.0, 6.0], 3.0, 1.0]]}
+    d1 = {"kind": "emulsion", "droplets": [[[7.0], 2.5, 1.0]]}
+    d2 = {"kind": "emulsion", "droplets": [[[3.0], 1.5, 0.5], [[11.0], 2.5, 1.0]]}
+    empty = {"kind": "emulsion", "droplets": []}
+    none = {"kind": "none"}
+    singles = [{"threshold": 0.3}, {"threshold": "mean"}, {"minimal_radius": 2.4}, {"refine": True},
+               {"refine_args": {"vmin": None, "vmax": None}}, {"perturbation_modes": 2}]
+    combos = [{"perturbation_modes": 2, "refine": False}, {"perturbation_modes": 1, "refine": True},
+              {"refine": True, "refine_args": {"tolerance": 1e-3}, "minimal_radius": 1.0},
+              {"threshold": "extrema", "minimal_radius": 2.4, "refine": True, "refine_args": {"vmin": None, "vmax": None},
+               "perturbation_modes": 2}]
+    out = []
+    for o in singles + combos:
+        out.append({"grid": g2, "frames": [e2, empty, e1], "times": [0.5, 1.5, 2.5], "options": o, "source": none})
+        out.append({"grid": g1, "frames": [d1, d2], "times": [0.5, 1.5], "options": o, "source": none})
+    for frames in ([empty, e2, e1], [e2, empty, e1], [e2, e1, empty], [empty, empty, empty]):
+        out.append({"grid": g2, "frames": frames, "times": [1.0, 2.0, 3.0], "options": {"minimal_radius": 1.0}, "source": none})
+    for times, ty in (([0, 1.5, 2.5], "py"), ([-1.5, 0, 2.5], "py"), ([-2.5, -1.5, 0], "py"), ([-1.5, 0.0, 2.5], "float64"),
+                      ([3, 2, 0], "int64"), ([-3.25, -7.5, -0.125], "float32"), ([0.0, 0.0, 0.0], "py")):
+        out.append({"grid": g2, "frames": [e2, e1, empty], "times": times, "time_type": ty, "options": {}, "source": none})
+    for via, o in (("ctor", {"minimal_radius": 2.4}), ("tracker_method", {}), ("ctor", {})):
+        for k in (0, 2):
+            out.append({"grid": g2, "frames": [e2, empty], "times": [0.0, 1.0], "options": o, "source": none,
+                        "initial": {"frames": [e1, e2][:k], "times": [-2.0, -1.0][:k], "via": via}})
+    for dt in ("float32", "int", "bool"):
+        out.append({"grid": g2, "frames": [dict(e2, dtype=dt), dict(empty, dtype=dt), dict(e1, dtype=dt)],
+                    "times": [0.0, 1.0, 2.0], "options": {"threshold": 0.5 if dt != "int" else 2}, "source": none})
+    return out
+
+
+def empty_positions(case, obs):
+    """Where the frames without (recorded) droplets sit in the history."""
+    if obs["online"][0] != "ok" or not obs["online"][1]["emulsions"]:
+        return "n/a"
+    e = [len(x) == 0 for x in obs["online"][1]["emulsions"]]
+    if all(e):
+        return "all"
+    tags = [t for t, c in (("first", e[0]), ("interior", any(e[1:-1])), ("last", e[-1] and len(e) > 1)) if c]
+    return "+".join(tags) or "none"
+
+
 def corpus_length():
     g = {"kind": "unit", "shape": [12, 12], "periodic": True}
     e2 = {"kind": "emulsion", "droplets": [[[3.0, 3.0], 2.25, 1.0], [[8.5, 8.0], 2.5, 1.0]]}
@@ -858,7 +1065,7 @@ def check(ctx: vlib.Ctx) -> int:
 
     # ---- droplet tracker: corpus + stream
     n_stream = ctx.scale(350, 2500)
-    cases = corpus() + [gen_case(rng) for _ in range(n_stream)]
+    cases = corpus() + corpus_systematic() + [gen_case(rng) for _ in range(n_stream)]
     vid, eid, xid = Ids(), Ids(), Ids()
     lsig = locate_signature()
     literals = []
@@ -869,9 +1076,25 @@ def check(ctx: vlib.Ctx) -> int:
         ctx.count("history_length", len(case["frames"]))
         ctx.count("dim", len(case["grid"]["shape"]) if "shape" in case["grid"] and isinstance(case["grid"]["shape"], list) else 1)
         ctx.count("source", case["source"]["kind"])
-        ctx.count("threshold", case["options"].get("threshold", "<default>"))
+        ctx.count("image_dtype", next((f.get("dtype") for f in case["frames"] if f.get("dtype")), "float64"))
+        ctx.count("time_code_type", case.get("time_type", "py"))
+        ctx.count("time_code_zero", "/".join(p for p, c in (("first", case["times"][:1] == [0]),
+                                                             ("interior", 0 in case["times"][1:-1]),
+                                                             ("last", len(case["times"]) > 1 and case["times"][-1] == 0)) if c) or "none")
+        ctx.count("time_codes_negative_or_fractional", any(t < 0 or float(t) != int(t) for t in case["times"]))
+        ctx.count("frames_without_droplets_at", empty_positions(case, obs))
+        ctx.count("filename", "set" if (k % 3 == 0 or k < 12) else "None")
+        ctx.count("emulsion_timecourse", "None" if case.get("initial") is None else
+                  f"given({len(case['initial']['frames'])} frames, via {case['initial']['via']})")
+        ctx.count("minimal_radius", json.dumps(case["options"].get("minimal_radius", "<default>")))
+        ctx.count("refine_args", json.dumps(case["options"].get("refine_args", "<default>"), sort_keys=True)[:60])
+        ctx.count("options_given", len(case["options"]))
+        ctx.count("modes>0 x refine", f"{realise(case['options'].get('perturbation_modes', 0)) > 0} x "
+                                      f"{case['options'].get('refine', '<default>')}")
+        ctx.count("tracker_option_objects_after_history", "unchanged" if obs.get("options_unchanged", True) else "modified")
+        ctx.count("threshold", json.dumps(case["options"].get("threshold", "<default>")))
         ctx.count("refine", case["options"].get("refine", "<default>"))
-        ctx.count("modes", case["options"].get("perturbation_modes", "<default>"))
+        ctx.count("modes", json.dumps(case["options"].get("perturbation_modes", "<default>")))
         ctx.count("online_outcome", obs["online"][0] if obs["online"][0] == "ok" else obs["online"][1])
         for f in case["frames"]:
             ctx.count("frame_kind", f["kind"] if f["kind"] != "emulsion" else f"emulsion_{len(f['droplets'])}")
@@ -895,6 +1118,10 @@ def check(ctx: vlib.Ctx) -> int:
         ctx.case(["length", case], nontrivial=len(case["frames"]) > 0)
         ctx.count("length_method", case["options"].get("method", "<default>"))
         ctx.count("length_grid", case["grid"]["kind"])
+        ctx.count("length_image_dtype", next((f.get("dtype") for f in case["frames"] if f.get("dtype")), "float64"))
+        ctx.count("length_time_code_type", case.get("time_type", "py"))
+        if obs.get("finalize_error") and suspected_length_finalize(case):
+            ctx.count("SUSPECTED (not judged)", f"S14a finalize raised {obs['finalize_error']}")
         for v, d in zip(obs["values"], obs["direct"]):
             ctx.count("length_value_kind", v[0] if d[0] == "ok" else f"nan_after_{d[1]}")
         if k in (0, 1):
@@ -910,7 +1137,7 @@ def check(ctx: vlib.Ctx) -> int:
         fails = judge_solver_case(case, obs)
         ctx.case(["solver", case])
         ctx.count("solver_frames", len(obs["storage_times"]))
-        ctx.count("solver_interrupts", "geometric" if isinstance(case["interrupts"], dict) else
+        ctx.count("solver_interrupts", case["interrupts"]["kind"] if isinstance(case["interrupts"], dict) else
                   ("list" if isinstance(case["interrupts"], list) else case["interrupts"]))
         if k == 0:
             ctx.sample({"solver_case": case, "times": obs["storage_times"],
@@ -971,6 +1198,8 @@ def check(ctx: vlib.Ctx) -> int:
                     violations.append({"what": "LengthScaleTracker: " + fails[0], "input": lcase, "found": True,
                                        "kind": "length"})
                     break
+    for sp in SUSPECTED:
+        ctx.notes.append(f"SUSPECTED {sp['id']} (reported, not judged): {sp['where']}: {sp['input']} -> {sp['observed']}")
     for v in violations[:3]:
         v["broken"] = ctx.broken[:3]
         ctx.violations.append(v)
